@@ -18,21 +18,109 @@ open Pug Pug.Tpl
 /-- the model follows the code in trimming only the merged class value -/
 theorem C05_trim_only_class : attrsTrimAll = false := rfl
 
+theorem collect_single (r : AttrRec) : attrCollect [r] = attrStep [] r := rfl
+
 /-- **C05 (false / null / undefined ⇒ omitted).** -/
 theorem C05_false_omitted (n v : String) (e : Bool) : renderAttrs [(n, some false, v, e)] = "" := by
   by_cases hc : n = "class"
   · subst hc
-    simp [renderAttrs, List.foldl, List.find?, List.filter, List.map, String.join]
-    decide
+    simp [renderAttrs, collect_single, attrStep, attOf, attrRenderOne, List.find?, List.filter, List.map, String.join]
+    cases e <;> simp [trimSpaceStr] <;> decide
   · have : (n == "class") = false := by simpa using hc
-    simp [renderAttrs, List.foldl, List.find?, this, String.join]
+    simp [renderAttrs, collect_single, attrStep, attOf, attrRenderOne, List.find?, this, String.join]
+
+/-- **C05 (true ⇒ name="name").** For every name other than `class`: a true boolean renders the attribute with its own name
+as the value (escaped like any value). -/
+theorem C05_true_named (n v : String) (hc : n ≠ "class") :
+    renderAttrs [(n, some true, v, true)] = " " ++ n ++ "=\"" ++ stdHtmlEscape n ++ "\"" := by
+  have h1 : (n == "class") = false := by simpa using hc
+  simp [renderAttrs, collect_single, attrStep, attOf, attrRenderOne, List.find?, h1, String.join, attrsTrimAll, hc]
 
 /-- **C05 (string / number values).** For every name other than `class` and every value, the attribute is emitted once as
 `name="escape(value)"`; the value is not trimmed or otherwise altered. -/
 theorem C05_value_escaped (n v : String) (hc : n ≠ "class") :
     renderAttrs [(n, none, v, true)] = " " ++ n ++ "=\"" ++ stdHtmlEscape v ++ "\"" := by
   have h1 : (n == "class") = false := by simpa using hc
-  simp [renderAttrs, List.foldl, List.find?, h1, String.join, attrsTrimAll, hc]
+  simp [renderAttrs, collect_single, attrStep, attOf, attrRenderOne, List.find?, h1, String.join, attrsTrimAll, hc]
+
+/-! ## order and merging, for every record list -/
+
+/-- names in order of FIRST occurrence -/
+def firstOcc (acc : List String) : List String → List String
+  | [] => acc
+  | n :: rest => firstOcc (if acc.any (· == n) then acc else acc ++ [n]) rest
+
+theorem find_iff_any (acc : List (String × List TmpAttr)) (n : String) :
+    (acc.find? (·.1 == n)).isSome = (acc.map (·.1)).any (· == n) := by
+  induction acc with
+  | nil => rfl
+  | cons p rest ih =>
+    simp only [List.find?_cons, List.map_cons, List.any_cons]
+    by_cases h : (p.1 == n) = true
+    · simp [h]
+    · simp [h, ih]
+
+theorem map_fst_replace (acc : List (String × List TmpAttr)) (n : String) (vs : List TmpAttr) :
+    (acc.map fun e => if e.1 == n then (n, vs) else e).map (·.1) = acc.map (·.1) := by
+  induction acc with
+  | nil => rfl
+  | cons p rest ih =>
+    simp only [List.map_cons, ih]
+    by_cases h : (p.1 == n) = true
+    · have : p.1 = n := by simpa using h
+      simp [h, this]
+    · simp [h]
+
+theorem step_names (acc : List (String × List TmpAttr)) (r : AttrRec) :
+    (attrStep acc r).map (·.1) =
+      (if (acc.map (·.1)).any (· == r.1) then acc.map (·.1) else acc.map (·.1) ++ [r.1]) := by
+  have hf := find_iff_any acc r.1
+  unfold attrStep
+  generalize attOf r = att
+  simp only
+  cases hfind : acc.find? (·.1 == r.1) with
+  | none =>
+    rw [hfind] at hf
+    have : (acc.map (·.1)).any (· == r.1) = false := by simpa using hf.symm
+    simp [this]
+  | some p =>
+    rw [hfind] at hf
+    have : (acc.map (·.1)).any (· == r.1) = true := by simpa using hf.symm
+    simp only [this, if_true]
+    split
+    · split
+      · rfl
+      · exact map_fst_replace acc r.1 _
+    · exact map_fst_replace acc r.1 _
+
+/-- **C05 (source order kept).** For EVERY list of attribute records: the attributes come out in the order in which their
+names FIRST occur; a repeated name never moves or duplicates an attribute. -/
+theorem C05_order_first_occurrence (recs : List AttrRec) :
+    (attrCollect recs).map (·.1) = firstOcc [] (recs.map (·.1)) := by
+  have gen : ∀ (recs : List AttrRec) (acc : List (String × List TmpAttr)),
+      (recs.foldl attrStep acc).map (·.1) = firstOcc (acc.map (·.1)) (recs.map (·.1)) := by
+    intro recs
+    induction recs with
+    | nil => intro acc; rfl
+    | cons r rest ih =>
+      intro acc
+      simp only [List.foldl_cons, List.map_cons, firstOcc]
+      rw [ih, step_names]
+  exact gen recs []
+
+/-- **C05 (a repeated plain attribute: the last value wins).** -/
+theorem C05_last_value_wins (n v1 v2 : String) (hc : n ≠ "class") :
+    renderAttrs [(n, none, v1, true), (n, none, v2, true)] = " " ++ n ++ "=\"" ++ stdHtmlEscape v2 ++ "\"" := by
+  have h1 : (n == "class") = false := by simpa using hc
+  simp [renderAttrs, attrCollect, attrStep, attOf, attrRenderOne, List.foldl, List.find?, h1, String.join, attrsTrimAll, hc]
+
+/-- **C05 (class values accumulate).** Two different class records are both kept, in order. -/
+theorem C05_class_accumulates (v1 v2 : String) (hne : v1 ≠ v2) :
+    attrCollect [("class", none, v1, true), ("class", none, v2, true)] =
+      [("class", [(true, v1, none), (true, v2, none)])] := by
+  have : ((true, v1, (none : Option Bool)) == (true, v2, (none : Option Bool))) = false := by
+    simp [hne]
+  simp [attrCollect, attrStep, attOf, List.foldl, List.find?, this]
 
 def sig (c : Char) : Bool := c == '<' || c == '>' || c == '"' || c == '\''
 
